@@ -228,6 +228,36 @@ pub fn gen_aff(r: &mut Rng, outdim: usize, indim: usize, maxk: i64) -> AffFunc {
     }
     AffFunc::from_mats(gen_mat(r, outdim, indim, maxk), gen_vec(r, outdim, maxk))
 }
+/// Wide magnitudes with exact f64 arithmetic.  `gen_aff_selection`: at most one non-zero entry per column, each
+/// +-2^e with e in {-30, 0, 30}, zero bias -- so every entry of a product M * selection is a single product of two dyadic
+/// numbers (exact), and M * bias = 0.  `widen` multiplies some entries of an existing matrix by 2^30 or 2^-30.
+#[allow(dead_code)]
+pub fn gen_aff_selection(r: &mut Rng, outdim: usize, indim: usize) -> AffFunc {
+    let mut a = Array2::<f64>::zeros((outdim, indim));
+    if outdim > 0 {
+        for j in 0..indim {
+            if r.chance(5, 6) {
+                let i = r.below(outdim);
+                let mag = [2f64.powi(-30), 1.0, 2f64.powi(30)][r.below(3)];
+                a[[i, j]] = if r.chance(1, 4) { -mag } else { mag };
+            }
+        }
+    }
+    AffFunc::from_mats(a, Array1::<f64>::zeros(outdim))
+}
+#[allow(dead_code)]
+pub fn widen(r: &mut Rng, a: &mut AffFunc) {
+    let (rows, cols) = (a.mat.shape()[0], a.mat.shape()[1]);
+    for i in 0..rows {
+        for j in 0..cols {
+            match r.below(4) {
+                0 => a.mat[[i, j]] *= 2f64.powi(30),
+                1 => a.mat[[i, j]] *= 2f64.powi(-30),
+                _ => {}
+            }
+        }
+    }
+}
 /// a decision row that is not all-zero most of the time
 pub fn gen_dec(r: &mut Rng, rows: usize, indim: usize, maxk: i64) -> AffFunc {
     let mut a = gen_aff(r, rows, indim, maxk);
